@@ -165,6 +165,14 @@ impl Layout {
             })
             .collect()
     }
+
+    /// Round 3 (label tables): labelling by angular sector with `c` classes. A ring point at position
+    /// i gets class floor(i * c / m) (both rings; a ring offset by a fraction of a step keeps the
+    /// sector of its position), the centre gets the largest class. The points of an inner class are
+    /// neighbours on the ring(s); every class occurs for every m >= 3 and c <= 4.
+    pub fn sector_labels(&self, c: usize) -> Vec<usize> {
+        self.points().iter().map(|((ring, i), _)| if *ring == 0 { c - 1 } else { (i * c / self.m).min(c - 1) }).collect()
+    }
 }
 
 struct Inverted {
